@@ -72,14 +72,23 @@ func RunBind(c BindCase) error {
 }
 
 func runBind(c BindCase) (*bindStats, error) {
+	var st *bindStats
+	var err error
 	switch c.Side {
 	case "server-udp":
-		return runBindServerUDP(c)
+		st, err = runBindServerUDP(c)
 	case "client-udp":
-		return runBindClientUDP(c)
+		st, err = runBindClientUDP(c)
 	default:
-		return runBindControl(c)
+		st, err = runBindControl(c)
 	}
+	if err != nil && strings.HasPrefix(err.Error(), "harness:") && strings.Contains(err.Error(), "timed out") {
+		// bringing the victim to its state took longer than its (deliberately short) timeouts on a busy machine:
+		// the set-up steps are not what this check is about
+		st.Inconcl++
+		return st, nil
+	}
+	return st, err
 }
 
 func portOf(addr string) int {
@@ -265,7 +274,7 @@ func runBindServerUDP(c BindCase) (*bindStats, error) {
 		return rtcpCB.Load()
 	}
 	waitCount := func(n int64) {
-		deadline := time.Now().Add(2 * time.Second)
+		deadline := time.Now().Add(10 * time.Second)
 		for counted() < n && time.Now().Before(deadline) {
 			time.Sleep(time.Millisecond)
 		}
@@ -273,6 +282,9 @@ func runBindServerUDP(c BindCase) (*bindStats, error) {
 	half := c.Legit / 2
 	sendLegit(half, 100)
 	waitCount(int64(half))
+	if counted() < int64(half) {
+		return st, nil // the legitimate datagrams have not all arrived (lost, or the machine is too busy): they could still land in the intruder phase, so nothing is judged
+	}
 	before := counted()
 	n, _ := sendIntrusions(c.Intruders, [2]int{base0, base0 + 1}, srvPorts, pt, 0x11112222, 100+uint16(half))
 	st.Intrusions = n
@@ -312,6 +324,8 @@ func runBindServerUDP(c BindCase) (*bindStats, error) {
 			}
 		}()
 		bound := 2*c19Timeout + 3500*time.Millisecond // timeout + 1 s check period + whole-second clock granularity + slack
+		stall := newStallDetector()
+		defer stall.close()
 		deadline := time.Now().Add(bound)
 		closed := false
 		for time.Now().Before(deadline) && !closed {
@@ -320,6 +334,10 @@ func runBindServerUDP(c BindCase) (*bindStats, error) {
 		}
 		close(stop)
 		wg.Wait()
+		if !closed && stall.take() > 300*time.Millisecond {
+			st.Inconcl++
+			return st, nil // this very process was not scheduled for a while: the bound says nothing about the library
+		}
 		if !closed {
 			return st, fmt.Errorf("the negotiated peer has been silent for %v while intruders kept sending datagrams: the session did not time out (timeouts: read %v, idle %v)", bound, c19Timeout, 2*c19Timeout)
 		}
@@ -382,7 +400,7 @@ func runBindClientUDP(c BindCase) (*bindStats, error) {
 		}
 	}
 	waitLegit := func(n int64) {
-		deadline := time.Now().Add(2 * time.Second)
+		deadline := time.Now().Add(10 * time.Second)
 		for legitCB.Load() < n && time.Now().Before(deadline) {
 			time.Sleep(time.Millisecond)
 		}
@@ -392,11 +410,11 @@ func runBindClientUDP(c BindCase) (*bindStats, error) {
 	waitLegit(int64(half))
 	// same for RTCP: the server speaks first on that port too
 	w.Stream.WritePacketRTCP(desc.Medias[0], &rtcp.SenderReport{SSRC: 1, NTPTime: 1 << 40, RTPTime: 1}) //nolint:errcheck
-	for deadline := time.Now().Add(2 * time.Second); rtcpCB.Load() == 0 && time.Now().Before(deadline); {
+	for deadline := time.Now().Add(10 * time.Second); rtcpCB.Load() == 0 && time.Now().Before(deadline); {
 		time.Sleep(time.Millisecond)
 	}
-	if legitCB.Load() == 0 || rtcpCB.Load() == 0 {
-		return st, nil // the legitimate flow did not start (not judged here)
+	if legitCB.Load() < int64(half) || rtcpCB.Load() == 0 {
+		return st, nil // the legitimate packets have not all arrived (lost, or the machine is too busy): they could still land in the intruder phase, so nothing is judged
 	}
 	before, beforeRTCP := legitCB.Load(), rtcpCB.Load()
 	n, _ := sendIntrusions(c.Intruders, srvPorts, [2]int{base0, base0 + 1}, pt, 0x77778888, 5000)
@@ -435,6 +453,8 @@ func runBindClientUDP(c BindCase) (*bindStats, error) {
 			}
 		}()
 		bound := c19Timeout + 4500*time.Millisecond
+		stall := newStallDetector()
+		defer stall.close()
 		var werr error
 		select {
 		case werr = <-waitErr:
@@ -443,6 +463,10 @@ func runBindClientUDP(c BindCase) (*bindStats, error) {
 		}
 		close(stop)
 		wg.Wait()
+		if werr != nil && !strings.Contains(werr.Error(), "UDP timeout") && stall.take() > 300*time.Millisecond {
+			st.Inconcl++
+			return st, nil // this very process was not scheduled for a while: the bound says nothing about the library
+		}
 		if werr == nil || !strings.Contains(werr.Error(), "UDP timeout") {
 			return st, fmt.Errorf("the server has been silent for %v while intruders kept sending datagrams to the client's ports: the client did not report a UDP timeout (ReadTimeout %v, AnyPortEnable=%v); Wait: %v", bound, c19Timeout, c.AnyPort, werr)
 		}
